@@ -82,7 +82,7 @@ def harnesses(tier):
         spec = [(1, False, 60), (2, False, 60), (3, False, 300), (4, False, 1800), (4, True, 600), (5, True, 1800), (6, True, 3600)]
     for n, ordered, budget in spec:
         hs.append((Harness(PROP, "flood-n%d-%s" % (n, "sorted" if ordered else "anyorder"), h_flood, dict(n=n, ordered=ordered),
-                           "flood on %d non-overlapping events given %s" % (n, "in chronological order" if ordered else "in any order"), split_depth=7), budget))
+                           "flood on %d non-overlapping events given %s" % (n, "in chronological order" if ordered else "in any order"), split_depth=7, cross_solver=2), budget))
     return hs
 
 
